@@ -59,7 +59,8 @@ Inductive value : Type :=
 | VPair (a b : value)              (* std::pair *)
 | VVariant (k : nat) (v : value)  (* std::variant holding alternative k *)
 | VPtr (v : value)                 (* unique_ptr / shared_ptr to v (non-null) *)
-| VObj (l : list value).           (* a tuple_operators<T> type: its as_tuple() *)
+| VObj (l : list value)            (* a tuple_operators<T> type: its as_tuple() *)
+| VValueless.                      (* a std::variant that is valueless_by_exception() *)
 
 Variable h : leaf -> N.                        (* std::hash<T>()(t) *)
 Variables leqb lltb : leaf -> leaf -> bool.     (* == and < of the leaf type *)
@@ -73,6 +74,7 @@ Fixpoint hash (x : value) : N :=
   | VVariant _ v => combine variant_seed (hash v)                   (* the active alternative; the index is not hashed *)
   | VPtr v => hash v                                                (* hash of the pointee *)
   | VObj l => fold_left (fun seed v => combine seed (hash v)) l tuple_seed   (* t.hash() = hash(as_tuple(t)) *)
+  | VValueless => variant_seed      (* no get_if<I> finds an alternative: the seed is returned as it is *)
   end.
 
 (* running seed of hash_combine_tuple after the components in l, started from `seed` *)
@@ -87,6 +89,7 @@ Fixpoint veqb (x y : value) : bool :=
   | VVariant k v, VVariant j w => (k =? j)%nat && veqb v w
   | VPtr v, VPtr w => veqb v w     (* pointee equality; C++ compares addresses, which implies this *)
   | VObj l, VObj m => all2 veqb l m (* as_tuple(x) == as_tuple(y) *)
+  | VValueless, VValueless => true  (* index() == index() (both variant_npos) && valueless *)
   | _, _ => false
   end.
 
@@ -103,7 +106,9 @@ Fixpoint vlt2 (x y : value) : bool * bool :=
       let (l1, g1) := vlt2 v w in
       ((k <? j)%nat || ((k =? j)%nat && l1), (j <? k)%nat || ((k =? j)%nat && g1))
   | VObj l, VObj m => lex2 vlt2 l m   (* as_tuple(x) < as_tuple(y) *)
-  | _, _ => (false, false)            (* pointers order by address: not modelled *)
+  | VValueless, VVariant _ _ => (true, false)   (* std::variant operator<: a valueless variant is below every other one *)
+  | VVariant _ _, VValueless => (false, true)
+  | _, _ => (false, false)            (* pointers order by address: not modelled; valueless vs valueless: equal *)
   end.
 
 Definition vltb (x y : value) : bool := fst (vlt2 x y).
@@ -159,6 +164,7 @@ Arguments VPair {leaf}.
 Arguments VVariant {leaf}.
 Arguments VPtr {leaf}.
 Arguments VObj {leaf}.
+Arguments VValueless {leaf}.
 Arguments members {leaf}.
 Arguments HHash {leaf}.
 Arguments HSet {leaf}.
